@@ -43,6 +43,8 @@ MonInitVal ==
     susp |-> {},                 \* futures of suspensions in effect (requested, accepted, not released)
     suspWait |-> FALSE,          \* the engine is inside the wait of a suspension
     pausedNow |-> FALSE,
+    st |-> "idle",               \* engine state as reported by state events
+    planDone |-> FALSE,          \* the plan handed to RE(...) has returned or raised (post-plan window)
     lastCmd |-> "",              \* command of the last message executed (call-site part of a signature)
     maxMid |-> 0,                \* highest message identity seen
     faulty |-> FALSE ]           \* a device fault or a plan error was injected in this call chain
@@ -126,14 +128,18 @@ UpdMsg(m, e) ==
       \* C09: after the checkpoint that consumes a deferred pause no further message may be executed before the pause
       m3 == ViolIf(m2, m.deferCkpt /\ cmd # "checkpoint", "C09:message-after-deferred-checkpoint")
       \* C11: while a suspension holds the plan only the helper's own messages (pre-plan, wait) may run
-      m4 == IF cmd = "wait_for" /\ m3.susp # {} THEN [m3 EXCEPT !.suspWait = TRUE] ELSE
-            IF cmd = "_resume_from_suspender" THEN [m3 EXCEPT !.suspWait = FALSE] ELSE m3
+      m4a == IF cmd = "wait_for" /\ m3.susp # {} THEN [m3 EXCEPT !.suspWait = TRUE] ELSE
+             IF cmd = "_resume_from_suspender" THEN [m3 EXCEPT !.suspWait = FALSE] ELSE m3
+      \* a suspension starts: the engine rewinds; what was executed since the last checkpoint is replayed after the release
+      m4 == IF cmd = "_start_suspender" /\ m4a.ckpt
+            THEN [m4a EXCEPT !.rew = @ + 1, !.expect = m4a.since \o m4a.expect, !.replaying = (m4a.since \o m4a.expect # <<>>), !.since = <<>>]
+            ELSE m4a
   IN [m4 EXCEPT !.maxMid = IF mid > @ THEN mid ELSE @, !.lastCmd = cmd]
 
 UpdState(m, e) ==
   LET o == e[2] n == e[3]
       m1 == ViolIf(m, o \notin DOMAIN Table \/ n \notin Table[o], "C07:illegal-transition:" \o o \o "->" \o n)
-      m2 == [m1 EXCEPT !.pausedNow = (n = "paused")]
+      m2 == [m1 EXCEPT !.pausedNow = (n = "paused"), !.st = n]
       \* C09: the pause that follows a deferred request: nothing to replay
       m3 == IF n = "paused" /\ m.deferCkpt THEN ViolIf([m2 EXCEPT !.deferPending = FALSE, !.deferCkpt = FALSE], m.since # <<>>, "C09:replay-after-deferred-pause")
             ELSE IF n = "pausing" /\ ~m.deferCkpt THEN [m2 EXCEPT !.deferPending = FALSE] ELSE m2
@@ -159,7 +165,7 @@ UpdRet(m, e, s2) ==
             THEN ViolIf(m1, ~((st = "paused" /\ resumable = 1) \/ (terminated /\ st = "idle" /\ allStopped)),
                         "C08:interrupted-but-" \o st)
             ELSE IF outcome = "ok" /\ op \in {"run", "resume"}
-            THEN ViolIf(m1, ~(st = "idle" /\ s2.planRet), "C08:normal-return-without-completion")
+            THEN ViolIf(m1, ~(st = "idle" /\ m.planDone), "C08:normal-return-without-completion")
             ELSE m1
       m3 == IF st = "idle" THEN
                LET a == ViolIf(m2, ~allStopped, "C01:run-not-stopped-at-idle")
@@ -181,9 +187,11 @@ UpdRet(m, e, s2) ==
   IN [m3 EXCEPT !.reqs = IF Len(@) > 0 /\ @[Len(@)].out = "" /\ @[Len(@)].kind \in {"call:resume", "call:abort", "call:stop", "call:halt"}
                           THEN [@ EXCEPT ![Len(@)].out = outcome] ELSE @]
 
+\* where a request landed, in terms of observable events only: "tail" = after the plan ended, "paused", else "run"
+Where(m) == IF m.planDone THEN "tail" ELSE IF m.st = "paused" THEN "paused" ELSE "run"
 UpdReq(m, e, s) ==
   LET kind == e[2]
-      rec == [kind |-> kind, pc |-> s.pc, st |-> s.st, res |-> s.cacheOn, out |-> "", after |-> m.lastCmd]
+      rec == [kind |-> kind, pc |-> Where(m), st |-> m.st, res |-> m.ckpt, out |-> "", after |-> m.lastCmd]
   IN [m EXCEPT !.reqs = Append(@, rec)]
 
 UpdReqRet(m, e, s2) ==
@@ -204,10 +212,11 @@ UpdCall(m, e, s) ==
   IF op = "run" THEN [m EXCEPT !.term = {}, !.termLate = {}, !.failedPause = FALSE, !.callRuns = m.nruns, !.deferPending = FALSE,
                                !.deferCkpt = FALSE, !.since = <<>>, !.expect = <<>>, !.replaying = FALSE, !.ckpt = TRUE,
                                !.susp = {}, !.suspWait = FALSE, !.pausedNow = FALSE, !.faulty = FALSE, !.lastCmd = "", !.reqs = <<>>,
+                               !.planDone = FALSE,
                                !.dev = [d \in Devices |-> [@[d] EXCEPT !.lost = 0]]]
-  ELSE LET rec == [kind |-> "call:" \o op, pc |-> s.pc, st |-> s.st, res |-> s.cacheOn, out |-> "", after |-> m.lastCmd]
+  ELSE LET rec == [kind |-> "call:" \o op, pc |-> Where(m), st |-> m.st, res |-> m.ckpt, out |-> "", after |-> m.lastCmd]
            m1 == [m EXCEPT !.reqs = Append(@, rec)]
-       IN IF op = "resume" THEN [m1 EXCEPT !.rew = @ + 1, !.expect = m.since, !.replaying = (m.since # <<>>), !.since = <<>>]
+       IN IF op = "resume" THEN [m1 EXCEPT !.rew = @ + 1, !.expect = m.since \o m.expect, !.replaying = (m.since \o m.expect # <<>>), !.since = <<>>]
           ELSE [m1 EXCEPT !.term = @ \cup {op}]
 
 Upd(m, e, s, s2) ==
@@ -215,27 +224,23 @@ Upd(m, e, s, s2) ==
   CASE k = "doc" -> UpdDoc(m, e)
     [] k = "nev" -> UpdNev(m, e)
     [] k = "dev" -> UpdDev(m, e)
-    [] k = "msg" -> UpdMsg(IF e[2] = "close_run" THEN [m EXCEPT !.inObsClose = TRUE] ELSE m, e)
+    [] k = "msg" -> UpdMsg([m EXCEPT !.inObsClose = (e[2] = "close_run")], e)
     [] k = "state" -> UpdState(m, e)
     [] k = "ret" -> UpdRet(m, e, s2)
     [] k = "req" -> UpdReq(m, e, s)
     [] k = "reqret" -> UpdReqRet(m, e, s2)
     [] k = "call" -> UpdCall(m, e, s)
     [] k = "stat" -> IF e[7] = 0 THEN [m EXCEPT !.faulty = TRUE] ELSE m
-    [] k = "gen" -> IF e[4] = "raise:PlanErr" THEN [m EXCEPT !.faulty = TRUE] ELSE m
+    [] k = "gen" -> LET m1 == [m EXCEPT !.inObsClose = FALSE] IN
+                    IF e[4] = "raise:PlanErr" THEN [m1 EXCEPT !.faulty = TRUE, !.planDone = TRUE]
+                    ELSE IF e[4] = "yield" THEN m1 ELSE [m1 EXCEPT !.planDone = TRUE]
     [] OTHER -> m
 
 RECURSIVE FoldEv(_, _, _, _, _)
 FoldEv(m, es, i, s, s2) == IF i > Len(es) THEN m ELSE FoldEv(Upd(m, es[i], s, s2), es, i + 1, s, s2)
 
 \* suspension release: a rewind happens when _start_suspender ran (its helper replays the cache after the wait)
-MonNext == mon' = LET m0 == [mon EXCEPT !.inObsClose = FALSE]
-                      m1 == FoldEv(m0, obs', 1, S, S')
-                  IN \* rewinds performed by the engine in this step (suspension start): messages executed before it are
-                     \* replayed after the release
-                     IF S'.cache = <<>> /\ S.cache # <<>> /\ S.pc = "exec" /\ S.cur.cmd = "_start_suspender"
-                     THEN [m1 EXCEPT !.rew = @ + 1, !.expect = m1.since, !.replaying = (m1.since # <<>>), !.since = <<>>]
-                     ELSE m1
+MonNext == mon' = FoldEv(mon, obs', 1, S, S')
 
 \* ---------------------------------------------------------------------------
 C01Tags == {"C01:start-order", "C01:no-run-start", "C01:second-stop", "C01:doc-after-stop", "C01:event-without-descriptor",
